@@ -45,6 +45,17 @@ def untranslated_tails():
     return out
 
 
+
+def empty_anode_names():
+    """Abstract nodes whose name is the empty string (name id 77, printed as "" by yvlib.rule_line): legal for yaep_read_grammar; the
+    memory contract (C13) must hold for them as for any other name.  Used where trees are not compared by name."""
+    out = []
+    out.append(entry("emptyname-1", [R(S, [1], 77, 1, [1])], maxlen=2, alphabet=[1]))
+    out.append(entry("emptyname-2", [R(S, [A, A], 77, 1, [1, 2]), R(A, [1], 77, 1, [1]), R(A, [1, 1], 2, 1, [1, 2])], maxlen=4, alphabet=[1]))
+    out.append(entry("emptyname-3", [R(S, [S, 1], 77, 1, [1, 2]), R(S, [], 77, 0, [])], maxlen=3, alphabet=[1]))
+    return out
+
+
 def curated():
     c = []
     # 1 the test suite's expression grammar: E : E + T | T ; T : T * F | F ; F : a | ( E )   (+=2 *=3 (=4 )=5 a=1)
